@@ -11,7 +11,9 @@
 //   --seed S --shard k --n N
 #include "vfh.h"
 #include <cfloat>
+#include <cstring>
 #include <omp.h>
+#include <votca/xtp/checkpoint.h>
 #include <votca/xtp/dipoledipoleinteraction.h>
 #include <votca/xtp/eeinteractor.h>
 
@@ -650,6 +652,50 @@ int main(int argc, char **argv) {
       } else {
         amax1 = p1.getpolarization().eigenvalues().real().maxCoeff();
         amax2 = p2.getpolarization().eigenvalues().real().maxCoeff();
+      }
+      // restart: in a third of the cases the two sites are what a checkpoint gives back (a PolarSegment written to an
+      // HDF5 checkpoint file and read again; every 4th of these through the file, the others through the same row
+      // structs in memory). A restored site must interact exactly like the site that was stored.
+      if (r.coin(0.33)) {
+        Eigen::Matrix3d Tmem = eet.FillTholeInteraction(p1, p2);
+        bool through_file = r.coin(0.25);
+        PolarSite q1 = p1, q2 = p2;
+        if (through_file) {
+          PolarSegment seg("restart", 0);
+          seg.push_back(p1);
+          seg.push_back(p2);
+          std::string f = A.str("dir", ".") + "/c15_restart_" + std::to_string(shard) + ".hdf5";
+          {
+            CheckpointFile cf(f, CheckpointAccessLevel::CREATE);
+            CheckpointWriter w = cf.getWriter("/seg");
+            seg.WriteToCpt(w);
+          }
+          CheckpointFile cf(f, CheckpointAccessLevel::READ);
+          CheckpointReader rd = cf.getReader("/seg");
+          PolarSegment back(rd);
+          q1 = back[0];
+          q2 = back[1];
+        } else {
+          PolarSite::data d1, d2;
+          p1.WriteData(d1);
+          p2.WriteData(d2);
+          // the table reader hands ReadData strings allocated by HDF5, which ReadData frees
+          d1.element = strdup(d1.element);
+          d2.element = strdup(d2.element);
+          q1 = PolarSite(d1);
+          q2 = PolarSite(d2);
+        }
+        R.eval(through_file ? "thole_restored_from_checkpoint_file" : "thole_restored_from_row_struct");
+        Eigen::Matrix3d Tre = eet.FillTholeInteraction(q1, q2), Tmix = eet.FillTholeInteraction(p1, q2);
+        // the stored quantity is the polarisability, the site keeps its inverse: two 3x3 inversions (eigenvalue ratios up
+        // to 1e3) legitimately cost some digits
+        double tol = 1e-9 * Tmem.norm() + 1e-300;
+        if ((q1.getpolarization() - p1.getpolarization()).norm() > 1e-9 * p1.getpolarization().norm() || !((Tre - Tmem).norm() <= tol) || !((Tmix - Tmem).norm() <= tol))
+          R.violation("thole/restored-site-differs", "the damped dipole-dipole tensor of sites restored from a checkpoint differs from that of the sites that were stored",
+                      J().b("through_file", through_file).d("expdamping", a).d("separation", (double)Rl).d("norm_T_in_memory", Tmem.norm()).d("norm_T_restored", Tre.norm()).d("norm_T_mixed", Tmix.norm())
+                          .d("damping_scale_original", p1.getSqrtInvEigenDamp()).d("damping_scale_restored", q1.getSqrtInvEigenDamp()));
+        p1 = q1;
+        p2 = q2;  // the clauses below are judged on the restored sites
       }
       Eigen::Matrix3d T = eet.FillTholeInteraction(p1, p2), Tsw = eet.FillTholeInteraction(p2, p1);
       LD R3 = Rl * Rl * Rl;
